@@ -309,6 +309,7 @@ def sequences(quick, seed):
     base = [[(1, True), (3, True), (2, True)],                # the defect of the unchanged tree: -17, -8, -8.75
             [(2, True), (3, 'zero'), (1, True)],              # the best point has a coordinate that is exactly 0.0
             [(2, True), (3, 'nan-gradient'), (1, True)],      # finite value, NaN in the gradient of a parameter that is not the first
+            [(1, True), (3, 'nan-gradient'), (2, True)],      # ... followed by a point that is the best among those with finite derivatives
             [(2, True), (2, True), (1, True), (3, True)],     # tie, worse, better
             [(2, False), (1, True), (3, False), (2, True)],   # non-finite first and in the middle
             # some evaluations ask for the value per observation (scaled=True): the best point is the best by the
